@@ -6,6 +6,7 @@ package main
 import (
 	"bufio"
 	"encoding/json"
+	"fmt"
 	"io"
 	"os"
 	"os/exec"
@@ -18,9 +19,10 @@ type Request struct {
 	Src       HB   `json:"src"`
 	WantToks  bool `json:"toks,omitempty"`
 	WantProto bool `json:"proto,omitempty"`
-	File      bool `json:"file,omitempty"`  // load through LState.LoadFile from a temporary file
-	WantParse bool `json:"parse,omitempty"` // also run the parse stage alone (parse.Parse)
-	Slow      bool `json:"slow,omitempty"`  // deliver the source through a one-byte-per-Read reader (LState.Load)
+	File      bool `json:"file,omitempty"`   // load through LState.LoadFile from a temporary file
+	WantParse bool `json:"parse,omitempty"`  // also run the parse stage alone (parse.Parse)
+	Slow      bool `json:"slow,omitempty"`   // deliver the source through a one-byte-per-Read reader (LState.Load)
+	Repeat    int  `json:"repeat,omitempty"` // load that many more times: class, message and bytecode must not change
 	LimitMs   int  `json:"-"`
 }
 
@@ -42,6 +44,14 @@ func childMain() {
 		}
 		if rq.WantToks {
 			res.Toks, res.LexErr, res.LexFail = scanAllR(rq.Src, rq.Slow)
+		}
+		base := res.Proto // bytecode of an earlier load of these bytes ("" = not known yet)
+		for k := 0; k < rq.Repeat && res.Unstable == ""; k++ {
+			c2, m2, p2 := loadOnceR(rq.Src, true, rq.Slow)
+			if c2 != res.Load || m2 != res.Msg || (base != "" && p2 != base) {
+				res.Unstable = trunc(fmt.Sprintf("load #1: %s %q; load #%d: %s %q", loadNames[res.Load], res.Msg, k+2, loadNames[c2], m2), 500)
+			}
+			base = p2
 		}
 		if rq.WantParse {
 			res.ParseStage, res.ParseMsg = parseStage(rq.Src)
